@@ -102,6 +102,16 @@ def run(prog, res):
   _sp.check_case_agreement(prog, res, ['lattice_lib', 'lattice_layer', 'utils',
                                        'pwl_calibration_layer', 'premade_lib'])
   res.floor('V3c', 10)
+  from ..rules import nonesafe
+  vals = [f for f in prog.all_functions() if f.parent is None and
+          'verify' in f.name]
+  for f in vals:
+    extra = set()
+    for g in vals:
+      if g is not f:
+        extra |= nonesafe.maybe_none_args(prog, g, f)
+    nonesafe.check_function(prog, res, f, extra_maybe=extra)
+  res.floor('N1', 12)
   res.floor('N0', 250)
   res.floor('V1', 60)
   res.floor('V1s', 3)
